@@ -343,19 +343,29 @@ def r2_listlike(run, w):
   sg = w.fn("summary.summary_groupby_col_type")
   p = sg.fi.params()[0]
   flat = {}
-  for s in ast.walk(sg.node):
-    if isinstance(s, ast.If) and isinstance(s.test, ast.Compare) and \
-        isinstance(s.test.ops[0], ast.Eq) and text(s.test.left) == p and \
-        isinstance(s.test.comparators[0], ast.Constant):
-      rets = [x for x in s.body if isinstance(x, ast.Return)]
-      if len(rets) == 1 and isinstance(rets[0].value, ast.Constant):
-        flat[s.test.comparators[0].value] = rets[0].value.value
-    if isinstance(s, ast.Call) and isinstance(s.func, ast.Attribute) and \
-        s.func.attr == "replace" and text(s.func.value) == p and len(s.args) == 2 and \
-        all(isinstance(a, ast.Constant) and isinstance(a.value, str) for a in s.args):
-      a, b = s.args[0].value, s.args[1].value
-      if a.endswith(":") and b.endswith(":"):
-        flat[a[:-1]] = b[:-1]
+  sgflow = H.Flow(sg)
+  for case in H.return_cases(sg.node):
+    if case.value is None:
+      continue
+    v = sgflow.du.inline(case.value)
+    eqs = []
+    for (t, pol) in case.atoms:
+      if isinstance(t, ast.Compare) and len(t.ops) == 1 and \
+          isinstance(t.ops[0], (ast.Eq, ast.NotEq)):
+        pair = [t.left, t.comparators[0]]
+        consts = [x.value for x in pair if isinstance(x, ast.Constant)]
+        if len(consts) == 1 and any(text(x) == p for x in pair) and \
+            isinstance(t.ops[0], ast.Eq) == bool(pol):
+          eqs.append(consts[0])
+    if len(eqs) == 1 and isinstance(v, ast.Constant):
+      flat[eqs[0]] = v.value
+    for c in ast.walk(v):
+      if isinstance(c, ast.Call) and isinstance(c.func, ast.Attribute) and \
+          c.func.attr == "replace" and text(c.func.value) == p and len(c.args) == 2 and \
+          all(isinstance(a, ast.Constant) and isinstance(a.value, str) for a in c.args):
+        a, b = c.args[0].value, c.args[1].value
+        if a.endswith(":") and b.endswith(":"):
+          flat[a[:-1]] = b[:-1]
   # metadata type strings whose column class is list-like: the keys of usertypes._type_defaults
   # (one per type string) resolved to their usertypes class and, through the MRO, to the column
   # class bound by `usertypes.X.ColType = Y`
@@ -428,48 +438,60 @@ def r2_listlike(run, w):
 
 
 def _sentinels(w, ctx, S0):
-  """{class qualname: constant} from `if not v: if isinstance(col, A): v = {x} else: v = {y}`."""
+  """{class qualname: constant} from the replacement of an empty list cell:
+  `if not v: v = {x} if isinstance(col, A) else {y}` in any of its spellings."""
   out = {}
   fi = ctx.writer.fi
-  for s in ast.walk(ctx.list_def):
-    if not (isinstance(s, ast.If) and isinstance(s.test, ast.UnaryOp) and
-            isinstance(s.test.op, ast.Not) and isinstance(s.test.operand, ast.Name)):
+  ld = ctx.list_def
+  def classes_of(t):
+    if isinstance(t, ast.Call) and dotted(t.func) == "isinstance" and len(t.args) == 2:
+      try:
+        cs = _class_set(w, fi, t.args[1])
+      except AnalysisError:
+        return None
+      if cs and cs <= S0:
+        return cs
+    return None
+  for s in walk_no_nested(ld):
+    if not (isinstance(s, ast.Assign) and len(s.targets) == 1 and
+            isinstance(s.targets[0], ast.Name)):
       continue
-    var = s.test.operand.id
-    inner = [x for x in s.body if isinstance(x, ast.If)]
-    if len(inner) != 1 or len(s.body) != 1:
-      continue
-    node = inner[0]
-    rest = set(S0)
-    while True:
-      t = node.test
-      if not (isinstance(t, ast.Call) and dotted(t.func) == "isinstance" and len(t.args) == 2):
-        raise AnalysisError("helper formula: unrecognised sentinel test %s" % short(t))
-      cs = _class_set(w, fi, t.args[1])
-      val = _set_const(node.body, var)
-      for q in cs:
+    var = s.targets[0].id
+    atoms = H.guard_atoms(ld, s)
+    if not any(isinstance(t, ast.Name) and t.id == var and pol is False for (t, pol) in atoms):
+      continue          # not the replacement of an empty value
+    cases = []
+    H._split_ifexp(s.value, atoms, s, cases)
+    for case in cases:
+      v = case.value
+      if not (isinstance(v, (ast.Set, ast.List, ast.Tuple)) and len(v.elts) == 1 and
+              isinstance(v.elts[0], ast.Constant)):
+        raise AnalysisError("helper formula: sentinel assignment not a one-constant collection")
+      val = v.elts[0].value
+      yes, no = set(), set()
+      for (t, pol) in case.atoms:
+        cs = classes_of(t)
+        if cs is None:
+          if isinstance(t, ast.Call) and dotted(t.func) == "isinstance" and \
+              text(t.args[0]) != var and pol is False:
+            # `not isinstance(col, (list-like classes))` cannot hold here; ignore other tests
+            pass
+          continue
+        if pol:
+          yes = cs if not yes else (yes & cs)
+        else:
+          no |= cs
+      # the enclosing `isinstance(col, (A, B))` (all list-like classes) narrows nothing
+      target = (yes or set(S0)) - no
+      if target == set(S0) and len(S0) > 1:
+        raise AnalysisError("helper formula: unrecognised sentinel test for %s" % short(v))
+      for q in target:
+        if q in out and out[q] != val:
+          raise AnalysisError("helper formula: two sentinels for %s" % q)
         out[q] = val
-      rest -= cs
-      if len(node.orelse) == 1 and isinstance(node.orelse[0], ast.If):
-        node = node.orelse[0]
-        continue
-      if node.orelse:
-        val = _set_const(node.orelse, var)
-        for q in rest:
-          out[q] = val
-      break
   if not out:
     raise AnalysisError("helper formula: empty-list sentinel branch not found")
   return out
-
-
-def _set_const(stmts, var):
-  if len(stmts) == 1 and isinstance(stmts[0], ast.Assign) and text(stmts[0].targets[0]) == var:
-    v = stmts[0].value
-    if isinstance(v, (ast.Set, ast.List, ast.Tuple)) and len(v.elts) == 1 and \
-        isinstance(v.elts[0], ast.Constant):
-      return v.elts[0].value
-  raise AnalysisError("helper formula: sentinel assignment not a one-constant collection")
 
 
 # --------------------------------------------------------------------------------------- R3
